@@ -31,13 +31,14 @@ static std::string show(const no_type&) { return "E"; }
 static std::string show(const term_value<size_t>& t) { return "t" + std::to_string(t.get_value() / 100) + "@" + std::to_string(t.get_column() - 1) + "+" + std::to_string(t.get_value() % 100); }
 template<int K> struct R { template<class... A> std::string operator()(A&&... a) const { std::string o = "r" + std::to_string(K) + "("; bool first = true; ((o += (first ? "" : ","), o += show(a), first = false), ...); return o + ")"; } };
 
-struct Expect { bool ok; std::string tree, messages; int nerr; };
+struct Expect { bool ok; std::string tree, messages; int nerr; int shifted[8]; };   // shifted[t]: how many terms t the documented driver shifts (= term functor calls)
 struct RefG { ref::Gram g; ref::LR1 lr; std::vector<std::string> names; };
 static void finish(RefG& G) { G.g.finish(); G.lr = ref::build_lr1(G.g, ref::analyse(G.g), true); if (G.lr.any_rr || G.lr.any_acc) { std::printf("{\"harness_error\": \"reference grammar has conflicts\"}\n"); std::exit(2); } }
 static void rule(RefG& G, int lhs, std::initializer_list<int> rhs) { int r = G.g.R++; G.g.lhs[r] = lhs; G.g.n[r] = 0; for (int s : rhs) G.g.rhs[r][G.g.n[r]++] = s; }
 static Expect expect_for(RefG& G, const std::vector<ref::Tok>& toks, bool lexfail, const std::string& in, int fail_off) {
     ref::Run run = ref::drive(G.g, ref::RefTable{G.lr}, toks, 4000, lexfail);
-    Expect e{run.ok, run.ok ? run.show(run.root) : std::string(), "", run.nerrors};
+    Expect e{run.ok, run.ok ? run.show(run.root) : std::string(), "", run.nerrors, {}};
+    for (const auto& nd : run.nodes) if (nd.kind == 0 && nd.a >= 0 && nd.a < 8) ++e.shifted[nd.a];
     size_t endp = in.size(); while (endp > 0 && (in[endp - 1] == ' ')) --endp; if (!toks.empty() && endp < size_t(toks.back().off + toks.back().len)) endp = size_t(toks.back().off + toks.back().len);
     size_t eofpos = in.size();
     for (size_t k = 0; k < run.err_tok.size(); ++k) {
@@ -53,6 +54,12 @@ static void judge(const std::string& in, const std::optional<std::string>& r, co
     if (r.has_value() != ex.ok) { fail(in, std::string("parse ") + (r ? "returned " + *r : "failed") + ", documented recovery " + (ex.ok ? "yields " + ex.tree : "fails") + "; stream: " + msgs); return; }
     ++g_checks; if (ex.ok && *r != ex.tree) { fail(in, "returned " + *r + " expected " + ex.tree); return; }
     ++g_checks; if (msgs != ex.messages) fail(in, "stream '" + msgs + "' expected '" + ex.messages + "'");
+}
+// term functor accounting (C02: a term's functor runs once per term that is shifted; terms skipped during recovery, the term that triggers an error
+// and the term a failing parse stops at never reach it)
+static long g_calls[8];
+static void judge_calls(const std::string& in, const Expect& ex, std::initializer_list<int> counted) {
+    for (int t : counted) { ++g_checks; if (g_calls[t] != ex.shifted[t]) { fail(in, "the functor of term " + std::to_string(t) + " ran " + std::to_string(g_calls[t]) + " times, the documented driver shifts " + std::to_string(ex.shifted[t]) + " such terms"); return; } }
 }
 static std::vector<std::string> all_inputs(const std::string& alphabet, int n) { std::vector<std::string> v{""}; for (size_t lo = 0, l = 0; l < (size_t)n; ++l) { size_t hi = v.size(); for (size_t i = lo; i < hi; ++i) for (char c : alphabet) v.push_back(v[i] + c); lo = hi; } return v; }
 // reference tokenizer for single-character terms (+ one multi-character class), skipping spaces
@@ -142,8 +149,8 @@ constexpr nterm<std::string> nl("nl");
 static void run_g4(int n) {
     g_gname = "custom lexer with error rule (nl -> num | nl , num | nl error ;)"; g_nt_term = 0;
     static const custom_term comma(",", create<no_type>{});
-    static const custom_term num("num", [](auto sv) { return size_t(100 + sv.size()); });
-    static const custom_term semi(";", [](auto sv) { return size_t(200 + sv.size()); });
+    static const custom_term num("num", [](auto sv) { ++g_calls[1]; return size_t(100 + sv.size()); });
+    static const custom_term semi(";", [](auto sv) { ++g_calls[2]; return size_t(200 + sv.size()); });
     static const parser p(nl, terms(comma, num, semi), nterms(nl), rules(
         nl(num) >= R<0>{}, nl(nl, comma, num) >= R<1>{}, nl(nl, error, semi) >= R<2>{}), use_lexer<list_lexer>{});
     RefG G; G.g.NT = 1; G.g.T = 3; int T0 = ref::TERM, E = ref::TERM + 4; G.names = {",", "num", ";", "<eof>", "<error_recovery_token>"};
@@ -153,9 +160,31 @@ static void run_g4(int n) {
         std::vector<ref::Tok> toks; int fo = -1; bool lexok = tokenize(in, ",?;", 'n', 1, toks, fo);
         Expect ex = expect_for(G, toks, !lexok, in, fo);
         std::ostringstream es; std::optional<std::string> r; std::string thrown;
+        g_calls[1] = g_calls[2] = 0;
         try { r = p.parse(string_buffer(std::string(in)), es); } catch (const std::exception& e) { thrown = e.what(); }
         if (!thrown.empty()) { ++g_cases; ++g_checks; fail(in, "parse threw " + thrown + " (documented recovery " + (ex.ok ? "succeeds" : "fails") + ")"); continue; }
-        judge(in, r, es.str(), ex);
+        judge(in, r, es.str(), ex); judge_calls(in, ex, {1, 2});
+    }
+}
+
+// ---------------------------------------------------------------- G6: the README grammar with typed terms (generated lexer): functor calls are counted
+static void run_g6(int n) {
+    g_gname = "README grammar with typed terms (functor calls counted)"; g_term_chars = "?+;"; g_sv_term = 0;
+    static const typed_term tnum(number, [](std::string_view sv) { ++g_calls[0]; return sv; });
+    static const typed_term tplus(o_plus, [](std::string_view sv) { ++g_calls[1]; return sv[0]; });
+    static const typed_term tsemi(char_term(';'), [](std::string_view sv) { ++g_calls[2]; return sv[0]; });
+    static const parser p(exprs, terms(tnum, tplus, tsemi), nterms(exprs, expr), rules(
+        exprs() >= R<0>{}, exprs(exprs, expr, tsemi) >= R<1>{}, exprs(exprs, error, tsemi) >= R<2>{},
+        expr(expr, tplus, expr) >= R<3>{}, expr(tnum) >= R<4>{}));
+    RefG G; G.g.NT = 2; G.g.T = 3; int T0 = ref::TERM, E = ref::TERM + 4; G.names = {"number", "+", ";", "<eof>", "<error_recovery_token>"};
+    rule(G, 0, {}); rule(G, 0, {0, 1, T0 + 2}); rule(G, 0, {0, E, T0 + 2}); rule(G, 1, {1, T0 + 1, 1}); rule(G, 1, {T0});
+    G.g.tprec[1] = 1; G.g.tassoc[1] = ref::LTOR; finish(G);
+    for (const std::string& in : all_inputs("n+; x", n)) {
+        std::vector<ref::Tok> toks; int fo = -1; bool lexok = tokenize(in, "?+;", 'n', 0, toks, fo);
+        Expect ex = expect_for(G, toks, !lexok, in, fo);
+        g_calls[0] = g_calls[1] = g_calls[2] = 0;
+        std::ostringstream es; auto r = p.parse(string_buffer(std::string(in)), es);
+        judge(in, r, es.str(), ex); judge_calls(in, ex, {0, 1, 2});
     }
 }
 
@@ -220,7 +249,7 @@ static void run_g5(bool thorough) {
 
 int main(int argc, char** argv) {
     int n = argc > 1 ? std::atoi(argv[1]) : 5;
-    run_g1(n); run_g2(n); run_g3(n); run_g4(n); run_g5(n > 5);
+    run_g1(n); run_g2(n); run_g3(n); run_g4(n); run_g6(n); run_g5(n > 5);
     std::string esc; for (char c : g_first) { if (c == '"' || c == '\\') esc += '\\'; if (c == '\n') { esc += "\\n"; continue; } esc += c; }
     std::printf("{\"cases\": %ld, \"checks\": %ld, \"failures\": %ld, \"recovered\": %ld, \"recovery_failed\": %ld, \"first_failure\": \"%s\"}\n", g_cases, g_checks, g_fail, g_recovered, g_failed_rec, esc.c_str());
     return g_fail ? 1 : 0;
